@@ -321,6 +321,8 @@ pub fn gen_cfg(rng: &mut Rng, prof: Profile) -> CaseCfg {
         }
     };
     let unmasked = rng.chance(1, 4);
+    // now and then the field is not set at all (the default must not allow unmasked client frames)
+    let unmasked_tok = if rng.chance(1, 6) { "default".to_string() } else { format!("{}", unmasked as u8) };
     let show = |o: Option<usize>, inf: &str| o.map(|x| x.to_string()).unwrap_or(inf.into());
     let line = format!(
         "cfg role={} rbuf={} wbuf={} maxw={} maxmsg={} maxframe={} unmasked={} pre=",
@@ -330,7 +332,7 @@ pub fn gen_cfg(rng: &mut Rng, prof: Profile) -> CaseCfg {
         show(maxw, "inf"),
         show(maxmsg, "none"),
         show(maxframe, "none"),
-        unmasked as u8
+        unmasked_tok
     );
     CaseCfg { client, line, wbuf, maxw }
 }
